@@ -13,8 +13,9 @@ RepViol06(r, same) ==
   V(r.ab = same, IF same THEN "equal-terms-compare-unequal" ELSE "different-terms-compare-equal")
   \cup V(r.ba = r.ab, "not-symmetric") \cup V(r.aa /\ r.bb, "not-reflexive")
   \cup V(r.sentence_eq = same /\ r.narsese_eq = same, "derived-eq-differs")
+\* C07 speaks of terms that COMPARE equal: both the canonically equal pairs and the pairs the real == calls equal
 RepViol07(r, same) ==
-  IF ~same THEN {} ELSE
+  IF ~(same \/ r.ab) THEN {} ELSE
   V(r.ha = r.hb, "equal-terms-hash-differently") \cup V(r.hr_eq, "equal-terms-hash-differently-random-hasher")
   \cup V(r.contains, "hashset-misses-equal-term") \cup V(r.map_get, "hashmap-misses-equal-key")
 
